@@ -1,6 +1,7 @@
 package main
 
 import (
+	"os"
 	"fmt"
 	"go/token"
 	"sort"
@@ -96,6 +97,7 @@ type pathEnd struct{ reason string }
 type inconclusiveEnd struct{ why string }
 
 type Path struct {
+	callStack []*ssa.Function
 	eng     *Engine
 	ctx     *Ctx
 	sol     *Solver
@@ -159,7 +161,42 @@ func (p *Path) unsupported(why string) {
 	if p.tolerant > 0 {
 		panic(tolerantFail{why})
 	}
-	panic(inconclusiveEnd{"unsupported: " + why + " at " + p.curSite})
+	panic(inconclusiveEnd{"unsupported: " + why + " at " + p.curSite + " via " + p.stackString()})
+}
+
+var (
+	forkProfile = os.Getenv("VERIF_FORKPROFILE") != ""
+	forkMu      sync.Mutex
+	forkSites   = map[string]int{}
+)
+
+func dumpForkProfile() {
+	if !forkProfile {
+		return
+	}
+	type kv struct {
+		k string
+		v int
+	}
+	var l []kv
+	for k, v := range forkSites {
+		l = append(l, kv{k, v})
+	}
+	sort.Slice(l, func(i, j int) bool { return l[i].v > l[j].v })
+	for i, e := range l {
+		if i >= 25 {
+			break
+		}
+		fmt.Fprintf(os.Stderr, "FORK %6d %s\n", e.v, e.k)
+	}
+}
+
+func (p *Path) stackString() string {
+	var names []string
+	for i := len(p.callStack) - 1; i >= 0 && len(names) < 8; i-- {
+		names = append(names, p.callStack[i].Name())
+	}
+	return strings.Join(names, " < ")
 }
 
 type tolerantFail struct{ why string }
@@ -291,6 +328,11 @@ func (p *Path) branch(cond *Term) bool {
 	fOK := rF != Unsat
 	switch {
 	case tOK && fOK:
+		if forkProfile {
+			forkMu.Lock()
+			forkSites[p.curSite+" in "+p.stackString()]++
+			forkMu.Unlock()
+		}
 		sib := append(append([]Decision{}, p.decisions...), Decision{V: 0})
 		p.pending = append(p.pending, sib)
 		p.record(Decision{V: 1})
